@@ -149,6 +149,10 @@ def run(module, prop, tier, plan, describe, assumptions=()):
             print(f"[{prop}] HARNESS-ERROR {msg} {e.get('traceback', '')[-1200:]}", flush=True)
         if exit_code == 0:
             exit_code = 2
+    vac = plan.get("vacuity")  # (stat key, minimum per run): a batch in which nothing ever succeeds proves nothing
+    if vac and results and stats.get(vac[0], 0) < vac[1] * len(results):
+        print(f"[{prop}] HARNESS-ERROR vacuous batch: {vac[0]}={stats.get(vac[0], 0)} over {len(results)} runs - the tree under test or the generator is broken", flush=True)
+        exit_code = exit_code or 2
     wall = time.time() - t0
     n = len(results)
     agg = {"stats": stats, "faults": faults, "probes": probes, "sigs": sigs, "n": n}
